@@ -211,6 +211,23 @@ def has_quant(e) -> bool:
     return False
 
 
+def _free_consts(e):
+    seen, out, stack = set(), [], [e]
+    while stack:
+        x = stack.pop()
+        i = x.get_id()
+        if i in seen:
+            continue
+        seen.add(i)
+        if z3.is_const(x) and x.decl().kind() == z3.Z3_OP_UNINTERPRETED:
+            out.append(x)
+        elif z3.is_var(x):
+            out.append(x)
+        else:
+            stack.extend(x.children())
+    return out
+
+
 class State:
     def __init__(self, trace, fuc_name, cfg):
         self.trace = list(trace)
@@ -278,7 +295,7 @@ class State:
             self.epoch = smt.simp(self.epoch + 1)
         self.heap[key] = a
         self.touched.add(key)
-        if key in ("lel", "llen") and "f:$seq" in self.heap:
+        if key in ("lel", "llen", "dhas", "dget") and "f:$seq" in self.heap:
             # ghost content identity of lists (see seq()): any mutation gives the list a new, unrelated identity
             if ref is not None:
                 self.heap["f:$seq"] = z3.Store(self.heap["f:$seq"], ref, self.fresh("seqid", Val))
@@ -385,6 +402,20 @@ class State:
         self.sadd(z3.Not(c))
         return False
 
+    _tags: Dict[str, int] = {}
+
+    def container_tag(self, ty, r):
+        """Type-based non-aliasing: a container reached through a field of element type T carries the ghost tag of T,
+        so containers of different declared element types are different objects (assumption, listed in evidence)."""
+        if ty.k == "tuple" or not ty.a or all(x.k == "any" for x in ty.a):
+            return []
+        key = repr(ty)
+        tid = State._tags.setdefault(key, len(State._tags) + 1)
+        if "ctag" not in self.heap:
+            self.heap["ctag"] = z3.Const("H0_ctag", smt.ArrII)
+            self.entry_heap.setdefault("ctag", self.heap["ctag"])
+        return [z3.Select(self.heap["ctag"], r) == tid]
+
     # -- well-typedness predicate of a Val term for a hint (shallow)
     def subclass_pred(self, cidterm, ci: ClassInfo):
         ids = sorted({c.cid for c in ci.subclasses()})
@@ -423,13 +454,13 @@ class State:
         if k in ("list", "tuple"):
             r = smt.rid(t)
             cid = LIST_CID if k == "list" else TUPLE_CID
-            small = []
+            small = self.container_tag(ty, r)
             return z3.And(smt.is_ref(t), r > 0, r < self.alloc, z3.Select(self.arr("llen"), r) >= 0,
                           z3.Select(self.arr("cls"), r) == cid, *small)
         if k in ("dict", "set"):
             r = smt.rid(t)
             cid = DICT_CID if k == "dict" else SET_CID
-            small = []
+            small = self.container_tag(ty, r)
             return z3.And(smt.is_ref(t), r > 0, r < self.alloc, z3.Select(self.arr("dsz"), r) >= 0,
                           z3.Select(self.arr("cls"), r) == cid, *small)
         return None
@@ -825,6 +856,7 @@ class Interp:
         st.heap["dget"] = z3.Store(st.arr("dget"), r, z3.K(Val, smt.NONE))
         st.heap["dsz"] = z3.Store(st.arr("dsz"), r, 0)
         st.heap["dkeys"] = z3.Store(st.arr("dkeys"), r, z3.K(smt.I, smt.NONE))
+        st.heap["f:$seq"] = z3.Store(st.arr("f:$seq"), r, smt.mk_str(smt.STR.id("$EMPTY_DICT")))
         return SV(smt.mk_ref(r), T.DICT(kty or T.ANY, vty or T.ANY), ("newdict",))
 
     def new_set(self, items, ety=None) -> SV:
@@ -860,16 +892,65 @@ class Interp:
         if d.ty.k == "dict" and isinstance(d.c, tuple) and d.c[0] == "newdict":
             d.ty = T.DICT(T.join(d.ty.a[0], k.ty) if d.ty.a[0].k != "any" else k.ty, T.join(d.ty.a[1], v.ty) if d.ty.a[1].k != "any" else v.ty)
 
+    def assume_dict_wf(self, d: SV):
+        """Data-structure invariant of Python dicts/sets in the (keys sequence, membership) model: the first `size`
+        entries of the key sequence are pairwise distinct, are members, and every member occurs among them."""
+        st = self.st
+        r = smt.rid(d.t)
+        n = smt.simp(z3.Select(st.arr("dsz"), r))
+        keys = smt.simp(z3.Select(st.arr("dkeys"), r))
+        has = smt.simp(z3.Select(st.arr("dhas"), r))
+        ck = (keys.get_id(), has.get_id(), n.get_id())
+        cache = st.cfg.setdefault("_wf_cache", set())
+        if ck in cache:
+            return
+        cache.add(ck)
+        hoist = None
+        if st.binder_asms:
+            # inside a quantifier body: facts about a dict that does not depend on the bound variables are stated
+            # outside the binder; otherwise they are closed over the binder like typing assumptions
+            free = {str(v) for v in _free_consts(r)}
+            if not any("!q" in v or "!o" in v or v.startswith("c!") or v.startswith("q!") for v in free):
+                hoist = st.binder_asms
+                st.binder_asms = []
+        K = st.cfg.get("ground")
+        if K:
+            st.assume(n <= K)
+            for x in range(K):
+                st.assume(z3.Implies(x < n, z3.Select(has, z3.Select(keys, x))))
+                for y in range(x + 1, K):
+                    st.assume(z3.Implies(y < n, z3.Select(keys, x) != z3.Select(keys, y)))
+            kq = z3.Const(f"k!wf{len(cache)}", Val)
+            st.assume(z3.ForAll([kq], z3.Implies(z3.Select(has, kq), z3.Or(*[z3.And(x < n, z3.Select(keys, x) == kq) for x in range(K)]))))
+            if hoist is not None:
+                st.binder_asms = hoist
+            return
+        a, b = z3.Ints(f"a!wf{len(cache)} b!wf{len(cache)}")
+        kq = z3.Const(f"k!wf{len(cache)}", Val)
+        pos = z3.Function(f"dpos!{len(cache)}_{st.n_fresh}", Val, smt.I)
+        st.n_fresh += 1
+        st.assume(z3.ForAll([a], z3.Implies(z3.And(a >= 0, a < n), z3.Select(has, z3.Select(keys, a)))))
+        st.assume(z3.ForAll([a, b], z3.Implies(z3.And(a >= 0, a < b, b < n), z3.Select(keys, a) != z3.Select(keys, b))))
+        st.assume(z3.ForAll([kq], z3.Implies(z3.Select(has, kq), z3.And(pos(kq) >= 0, pos(kq) < n, z3.Select(keys, pos(kq)) == kq))))
+        st.assume(n >= 0)
+        if hoist is not None:
+            st.binder_asms = hoist
+
     def dict_del(self, d: SV, k: SV):
         st = self.st
+        self.assume_dict_wf(d)
         r = smt.rid(d.t)
         has = z3.Select(st.arr("dhas"), r)
         was = z3.Select(has, k.t)
         sz = z3.Select(st.arr("dsz"), r)
+        keys = z3.Select(st.arr("dkeys"), r)
+        # order-preserving removal: the key sits at some position p; later keys move up by one
+        p = st.fresh("delpos", smt.I)
+        st.assume(z3.Implies(was, z3.And(p >= 0, p < sz, z3.Select(keys, p) == k.t)))
+        j = z3.Int("j!del")
+        st.setarr("dkeys", z3.Store(st.arr("dkeys"), r, z3.If(was, z3.Lambda([j], z3.If(j < p, z3.Select(keys, j), z3.Select(keys, j + 1))), keys)), r)
         st.setarr("dsz", z3.Store(st.arr("dsz"), r, smt.simp(z3.If(was, sz - 1, sz))))
         st.setarr("dhas", z3.Store(st.arr("dhas"), r, z3.Store(has, k.t, False)))
-        # order of the remaining keys: unconstrained fresh sequence (membership carried by dhas)
-        st.setarr("dkeys", z3.Store(st.arr("dkeys"), r, st.fresh("dkeys", smt.ArrIV)))
 
     def set_add(self, s: SV, v: SV):
         st = self.st
